@@ -68,6 +68,7 @@ func mergeGroup(p *core.Prog, rep *core.Report) {
 	m.mg1Guard()
 	m.mg2MarkerID()
 	m.mg3Liveness()
+	m.mg4EveryRecordLookedUp()
 	m.vf5Hint()
 	m.ps5MergeOrder()
 	m.ps5Adoption()
